@@ -66,6 +66,22 @@ Theorem C10_wake : forall cb0 inb nc scr ups sy sched,
 Proof. exact wake. Qed.
 Print Assumptions C10_wake.
 
+(* finality of the user operations.  Flush (hence Write = WriteBytes + Flush) is a thread of the model: it
+   loads the state and, exactly as stream.go's `if state != uint32(streamOpened)`, fails with ErrStreamClosed and
+   sends nothing unless the state is `opened`.  `aft` marks a Flush whose state check came after some Close() had
+   returned (from a closer thread or from inside OnData).  In EVERY schedule no such Flush succeeds or is about to
+   send — whichever non-open state the stream is in: halfClosed (peer), localHalfClosed (Close() issued while
+   OnData runs, until that OnData returns) or closed — and from then on reads never block (buffered data, then
+   end-of-stream).  [Flush with an empty sendBuf returns nil without a state check, and BufferWriter().WriteBytes
+   only buffers: neither sends anything.] *)
+Theorem C10_final_ops : forall cb0 inb nc scr ups sy sched,
+  let s := run sched (init_sy cb0 inb nc scr ups sy) in
+  (forall i u, nth_error (users s) i = Some u ->
+     Forall (fun r => snd r = true -> fst r = false) (ures u) /\ (forall m, upc u <> UPut m true)) /\
+  (0 < nret s -> st s <> c_streamOpened /\ flush_res s = RErrStreamClosed /\ read_res s <> RBlocked).
+Proof. exact final_ops. Qed.
+Print Assumptions C10_final_ops.
+
 (* peer side: once a close notification has been taken from the inbox and its CAS executed, Flush fails and
    reads return the buffered data and then end-of-stream *)
 Theorem C10_peer : forall cb0 inb nc scr ups sy sched,
@@ -142,7 +158,7 @@ Proof. vm_compute. repeat split. Qed.
 (* non-vacuity: synchronous mode, A flushes [5;6] and closes, B handles both events: A is closed, out of the
    table, reported once, told B; B is half-closed, still has the data to read, cannot flush *)
 Example C10_example_run :
-  let w := wrun (repeat (SA, WUser 0%nat) 2 ++ repeat (SA, WClo 0%nat) 10 ++ repeat (SB, WEv) 6)
+  let w := wrun (repeat (SA, WUser 0%nat) 3 ++ repeat (SA, WClo 0%nat) 10 ++ repeat (SB, WEv) 6)
                 (winit false false 1 0 [] [] [[[5; 6]]] []) in
   quiesc (wa w) /\ close_returned (wa w) /\
   st (wa w) = c_streamClosed /\ intable (wa w) = false /\ nlocal (wa w) = 1 /\ out (wa w) = [EData [5; 6]; EClose] /\
@@ -182,4 +198,14 @@ Example C10_seeded_close_fallthrough_self_deadlock :
   nth_error (gors s2) 0 = Some (GCbClose (CWait v_streamLocalHalfClosed) 0) /\ wg s2 = 1 /\
   st s2 = c_streamClosed /\ intable s2 = true /\ nlocal s2 = 0 /\ out s2 = [] /\
   step s2 (WGor 0) = s2.
+Proof. vm_compute. repeat split. Qed.
+
+(* non-vacuity for C10_final_ops: OnData consumes, calls Close() (state becomes localHalfClosed) and — modelled as
+   user thread 0 running inside that OnData — flushes once more before OnData returns: the Flush fails, nothing
+   but the close element is ever sent; a Flush begun BEFORE the Close (user thread 1) was sent *)
+Example C10_flush_after_close_inside_OnData :
+  let s := run (repeat (WUser 1) 3 ++ repeat WEv 6 ++ repeat (WGor 0) 7 ++ repeat (WUser 0) 3 ++ repeat (WGor 0) 40)
+               (init true [EData [1]] 0 [(1%nat, 1%nat)] [[[9]]; [[8]]]) in
+  map ures (users s) = [[(false, true)]; [(true, false)]] /\ out s = [EData [8]; EClose] /\
+  st s = c_streamClosed /\ nret s = 1.
 Proof. vm_compute. repeat split. Qed.
